@@ -8,7 +8,7 @@ from ..ref import P, L, to32, le
 
 REQUIRED = ['S>=l', 'S+l', 'smallA:accept', 'smallA:reject', 'smallR', 'mixedA', 'cofactored-only', 'noncanon-R', 'noncanon-A',
             'badkey', 'honest', 'prehash', 'legacy:S-range', 'validationvectors', 'R-undecodable', 'malleable-derived', 'sk-wrapper',
-            'key-ctor:from_bytes', 'key-ctor:try_from-slice', 'key-ctor:bincode', 'key-ctor:json', 'is_weak:small-order', 'is_weak:not', 'key-bytes-kept', 'passthrough-digest', 'key-ctor:from-point', 'key-ctor:default', 'key-ctor:from-esk', 'ctor-view']
+            'key-ctor:from_bytes', 'key-ctor:try_from-slice', 'key-ctor:bincode', 'key-ctor:json', 'is_weak:small-order', 'is_weak:not', 'key-bytes-kept', 'passthrough-digest', 'key-ctor:from-point', 'key-ctor:default', 'key-ctor:from-esk', 'ctor-view', 'S-high-canonical']
 
 
 def okerr(x):
@@ -152,6 +152,27 @@ def small_order(ctx, n):
         # small-order R with an honest key
         seed = vals.rb(rng, 32)
         add_verify(ctx, ref.ed_public(seed), msg, Rb + to32(rng.randrange(L)), ['smallR'], phc)
+
+
+def high_canonical_s(ctx, n):
+    """canonical S just below l and just above 2^252 (never met by chance): under a small-order key the equation
+    reduces to R = [S]B when k*A vanishes, which a message search arranges"""
+    rng = ctx.rng
+    encs = torsion_encodings()
+    svals = [L - 1, L - 2, 1 << 252, (1 << 252) + 1, L - (1 << 64), L - (1 << 128), (1 << 252) + (1 << 124)]
+    for _ in range(n):
+        svals.append(rng.choice([L - 1 - rng.randrange(1 << 20), (1 << 252) + rng.randrange(L - (1 << 252)), L - (1 << rng.randrange(124))]))
+    for S in svals:
+        Ab, Am, Anc = rng.choice(encs)
+        Rb = ref.ed_compress(ref.base_mul(S))
+        phc = rng.choice([None, None, b'', vals.rb(rng, 1)])
+        for _t in range(64):
+            msg = vals.rb(rng, 6)
+            k = k_of(Rb, Ab, msg, phc)
+            if ref.aff_mul(k % 8, Am) == ref.IDENT:
+                add_verify(ctx, Ab, msg, Rb + to32(S), ['S-high-canonical', 'smallA:accept'], phc)
+                add_verify(ctx, Ab, msg, Rb + to32(S + L), ['S>=l', 'S+l'], phc)
+                break
 
 
 def mixed_order(ctx, n):
@@ -326,6 +347,7 @@ def make(seed, size):
     ctx = core.Ctx(seed, prefix='v%d_' % (seed % 100000))
     honest(ctx, max(4, size // 4))
     small_order(ctx, max(6, size // 3))
+    high_canonical_s(ctx, max(2, size // 20))
     mixed_order(ctx, max(4, size // 4))
     validation_vectors(ctx, max(10, size // 2))
     sk_wrappers(ctx, max(3, size // 8))
